@@ -405,6 +405,58 @@ func ruleR13(c *Ctx) {
 						ok = true
 					}
 				}
+				// predicate(k, v) && !yield(k, v): the right operand of && is evaluated only when the
+				// left one holds
+				if !ok {
+					isPred := func(e ast.Expr) bool {
+						pc, isCall := ast.Unparen(e).(*ast.CallExpr)
+						if !isCall || len(pc.Args) != len(yc.Args) {
+							return false
+						}
+						pv := identVar(info, pc.Fun)
+						if pv == nil || !c.enclosingParam(u, pv) {
+							return false
+						}
+						for i := range pc.Args {
+							if identVar(info, pc.Args[i]) == nil || identVar(info, pc.Args[i]) != identVar(info, yc.Args[i]) {
+								return false
+							}
+						}
+						return true
+					}
+					contains := func(e ast.Expr) bool {
+						found := false
+						ast.Inspect(e, func(z ast.Node) bool {
+							if z == ast.Node(yc) {
+								found = true
+							}
+							return !found
+						})
+						return found
+					}
+					ast.Inspect(u.Body, func(z ast.Node) bool {
+						be, isBe := z.(*ast.BinaryExpr)
+						if !isBe || be.Op != token.LAND || !contains(be.Y) {
+							return true
+						}
+						// the left operand: predicate(k, v), possibly itself a conjunction containing it
+						var hasPred func(e ast.Expr) bool
+						hasPred = func(e ast.Expr) bool {
+							e = ast.Unparen(e)
+							if isPred(e) {
+								return true
+							}
+							if l, isL := e.(*ast.BinaryExpr); isL && l.Op == token.LAND {
+								return hasPred(l.X) || hasPred(l.Y)
+							}
+							return false
+						}
+						if hasPred(be.X) {
+							ok = true
+						}
+						return true
+					})
+				}
 				if ok {
 					c.r.ok("R13", "filter yield under predicate", m.pos(yc.Pos()), "dominated by predicate(k, v) on the yielded pair", props...)
 				} else {
